@@ -133,3 +133,21 @@ func (h *vHist) checkAllRC(label string) {
 		}
 	}
 }
+
+// Collection.Get hands out Item.Val only: the reference GetItem took for the
+// caller cannot be released by the caller (known finding, API by design).
+func vH_C15_get() {
+	rc := vNewRefCounts()
+	h := vNewHist(vParam("store") == 1, rc)
+	key, val := vBytes("k", 1), vBytes("v", 1)
+	it := &Item{Key: key, Val: val, Priority: 1}
+	rc.own(it)
+	c := h.orig.colls[0].c
+	vAssert("set-ok", c.SetItem(it) == nil)
+	vTrace("Get")
+	got, err := c.Get(key)
+	vAssert("get-ok", vAnd(err == nil, vBytesEq(got, val)))
+	h.orig.s.Close()
+	vAssert("get-leaks-reference", rc.cnt[it] == 1)
+	vCover("done")
+}
